@@ -779,17 +779,23 @@ Fixpoint states (n i : nat) (relq : list dfile) (u : nat -> upstream) (skel : lf
   end.
 Fixpoint all2 {A B} (f : A -> B -> bool) (a : list A) (b : list B) : bool :=
   match a, b with [] , [] => true | x :: a', y :: b' => f x y && all2 f a' b' | _, _ => false end.
-(* (number of rounds, a round validated, an error is counted in the last round, skel's release files after every round) *)
-Definition m_release (c : list dfile * list upstream * nat * lfs * list (list (string * option (N * Z)) * bool))
+Definition reqs_ok (rs : list file_result) (want : list (string * nat)) : bool :=
+  let got := flat_map requests_of rs in
+  forallb (fun w => Nat.eqb (fold_right (fun e acc => if String.eqb (fst e) (fst w) then snd e + acc else acc) 0 got) (snd w)) want.
+(* (number of rounds, a round validated, an error is counted in the last round, skel's release files after every
+   round and the number of requests per release URL in every round) *)
+Definition m_release (c : list dfile * list upstream * nat * lfs * list (list (string * option (N * Z)) * bool) *
+                          list (list (string * nat)))
   : nat * bool * bool * bool :=
-  match c with (relq, us, retries, skel, obs) =>
+  match c with (relq, us, retries, skel, obs, reqs) =>
     let u := fun i => nth i us [] in
     let validf := fun s => match find (fun o => listing_ok s (fst o)) obs with Some o => snd o | None => false end in
     match release_stage retries relq u validf skel with
     | (k, r) =>
         (k, match r with Some _ => true | None => false end,
          match r with Some (rs, _) => has_errors rs | None => false end,
-         all2 listing_ok (states (List.length obs) 0 relq u skel) (map fst obs))
+         all2 listing_ok (states (List.length obs) 0 relq u skel) (map fst obs) &&
+         all2 reqs_ok (release_log (Nat.max 1 retries) 0 relq u validf skel) reqs)
     end
   end.
 Definition eq_release (x y : nat * bool * bool * bool) : bool :=
@@ -831,7 +837,11 @@ def release_tie_row(o, files, faults):
     skel = clist("(%s, {| fsize := %s; fmt := Date %s |})" % (cstr(p), cN(sz), cZ(mt)) for p, (sz, mt) in sorted(o["rel_pre"].items()))
     obs = clist(ctuple(clist(ctuple(cstr(p), copt(r["listing"].get(p), lambda t: ctuple(cN(t[0]), cZ(t[1])))) for p in paths),
                        cbool(r["valid"])) for r in rounds)
-    term = ctuple(fq, clist(us), cnat(o["rel_retries"]), skel, obs)
+    deltas, prev = [], {}
+    for r in rounds:
+        deltas.append(clist(ctuple(cstr(p), cnat(r["counts"].get(p, 0) - prev.get(p, 0))) for p in paths))
+        prev = r["counts"]
+    term = ctuple(fq, clist(us), cnat(o["rel_retries"]), skel, obs, clist(deltas))
     ok = bool(rounds[-1]["valid"])
     want = ctuple(cnat(len(rounds)), cbool(ok), cbool(bool(o.get("rel_err")) if ok else False), "true")
     return (term, want), {"rounds": len(rounds), "valid": ok, "flavours": len(paths),
